@@ -65,6 +65,35 @@ func (ms *metaStore) metaPath(bucket string, object string) metaPath {
 	return metaPath{bucket, object + "-" + hex.EncodeToString(h.Sum(nil))}
 }
 
+// stagedSuffix is appended to the name of a metadata file to name the file in
+// which the metadata of an upload is kept until the object has been moved into
+// place; see stageMeta.
+const stagedSuffix = ".staged"
+
+// readMeta reads a metadata file; ok is false if it does not exist or cannot
+// be understood (a write that was interrupted, for example).
+func (ms *metaStore) readMeta(fullPath string) (meta Metadata, ok bool) {
+	bts, err := afero.ReadFile(ms.fs, fullPath)
+	if err != nil || len(bts) == 0 {
+		return meta, false
+	}
+	if err := json.Unmarshal(bts, &meta); err != nil {
+		return Metadata{}, false
+	}
+	return meta, true
+}
+
+// describes reports whether the metadata was recorded for a file with this
+// size and modification time.
+func (ms *metaStore) describes(meta *Metadata, size int64, mtime time.Time) (bool, error) {
+	modRes, err := ms.getModTimeRes()
+	if err != nil {
+		return false, err
+	}
+	modDiff := mtime.Sub(meta.ModTime)
+	return len(meta.Hash) != 0 && meta.Size == size && modDiff >= -modRes && modDiff <= modRes, nil
+}
+
 // loadMeta returns the metadata stored for the object. If there is none, or it
 // no longer matches the size and modification time of the object's file, the
 // hash is recomputed from that file, found at objectFilePath in objectFs.
@@ -72,25 +101,24 @@ func (ms *metaStore) loadMeta(bucket string, object string, size int64, mtime ti
 	metaPath := ms.metaPath(bucket, object)
 	fullPath := metaPath.FilePath()
 
-	bts, err := afero.ReadFile(ms.fs, fullPath)
-	if err != nil && !os.IsNotExist(err) {
-		return nil, err
-	}
-
-	var meta Metadata
-	if len(bts) > 0 {
-		if err := json.Unmarshal(bts, &meta); err != nil {
-			return nil, err
-		}
-	}
-
-	modRes, err := ms.getModTimeRes()
+	meta, _ := ms.readMeta(fullPath)
+	current, err := ms.describes(&meta, size, mtime)
 	if err != nil {
 		return nil, err
 	}
 
-	modDiff := mtime.Sub(meta.ModTime)
-	if len(meta.Hash) == 0 || meta.Size != size || modDiff < -modRes || modDiff > modRes {
+	if !current {
+		// An upload that was interrupted after the object had been moved into
+		// place, but before its metadata was committed, left it staged:
+		if staged, ok := ms.readMeta(fullPath + stagedSuffix); ok {
+			if matches, err := ms.describes(&staged, size, mtime); err != nil {
+				return nil, err
+			} else if matches {
+				_ = ms.commitMeta(metaPath)
+				return &staged, nil
+			}
+		}
+
 		meta.Size = size
 		meta.ModTime = mtime
 		meta.Hash, err = hashFile(objectFs, objectFilePath)
@@ -107,7 +135,21 @@ func (ms *metaStore) loadMeta(bucket string, object string, size int64, mtime ti
 	return &meta, nil
 }
 
+// saveMeta replaces the metadata stored at path.
 func (ms *metaStore) saveMeta(path metaPath, meta *Metadata) error {
+	if err := ms.stageMeta(path, meta); err != nil {
+		return err
+	}
+	return ms.commitMeta(path)
+}
+
+// stageMeta stores the metadata of an object that is about to be moved into
+// place next to, not over, the metadata of the object it replaces. Until
+// commitMeta is called the old object and its metadata stay as they are; if
+// the process dies after the move but before the commit, loadMeta finds the
+// staged metadata matching the new file and commits it. Either way an object
+// is never served with the metadata of another.
+func (ms *metaStore) stageMeta(path metaPath, meta *Metadata) error {
 	bts, err := json.Marshal(meta)
 	if err != nil {
 		return err
@@ -116,27 +158,21 @@ func (ms *metaStore) saveMeta(path metaPath, meta *Metadata) error {
 		return err
 	}
 
-	return afero.WriteFile(ms.fs, path.FilePath(), bts, 0666)
+	return afero.WriteFile(ms.fs, path.FilePath()+stagedSuffix, bts, 0666)
 }
 
-// replaceMeta stores the metadata of an object that is about to be moved into
-// place. If the move then fails, calling the returned function puts back what
-// was stored before.
-func (ms *metaStore) replaceMeta(path metaPath, meta *Metadata) (rollback func(), err error) {
-	previous, previousErr := afero.ReadFile(ms.fs, path.FilePath())
-	if err := ms.saveMeta(path, meta); err != nil {
-		return nil, err
-	}
-	return func() {
-		if previousErr == nil {
-			afero.WriteFile(ms.fs, path.FilePath(), previous, 0666)
-		} else {
-			ms.deleteMeta(path)
-		}
-	}, nil
+// commitMeta makes the staged metadata the object's metadata.
+func (ms *metaStore) commitMeta(path metaPath) error {
+	return ms.fs.Rename(path.FilePath()+stagedSuffix, path.FilePath())
+}
+
+// discardStagedMeta drops staged metadata of an upload that did not happen.
+func (ms *metaStore) discardStagedMeta(path metaPath) {
+	_ = ms.fs.Remove(path.FilePath() + stagedSuffix)
 }
 
 func (ms *metaStore) deleteMeta(path metaPath) error {
+	ms.discardStagedMeta(path)
 	if err := ms.fs.Remove(path.FilePath()); os.IsNotExist(err) {
 		return nil
 	} else {
